@@ -20,6 +20,12 @@ inductive Arg (α : Type) where
   | variadic (vs : List α)
   deriving Repr, DecidableEq
 
+/-- rename the argument carried by a slot (presence is untouched) -/
+def Arg.map {α β : Type} (f : α → β) : Arg α → Arg β
+  | .single v => .single (f v)
+  | .opt v => .opt (v.map f)
+  | .variadic vs => .variadic (vs.map f)
+
 /-- `BaseVars.__iter__`. -/
 def flatten {α : Type} : List (Arg α) → List (Option α)
   | [] => []
